@@ -287,9 +287,9 @@ func errValClass(r *ssa.Return, v ssa.Value, depth int) string {
 					// nil test of the same cell
 					fn := r.Parent()
 					for _, ce := range ir.DominatingConds(fn, r.Block()) {
-						if e, nilWhenTrue, ok := ir.NilCheck(ce.If.Cond); ok {
+						if e, nilWhenTrue, ok := ir.NilCheck(ce.RawCond); ok {
 							if eu, ok := e.(*ssa.UnOp); ok && eu.Op == token.MUL && eu.X == ssa.Value(a) {
-								succTrue := fn.Blocks[ce.Edge.From].Succs[0].Index == ce.Edge.To
+								succTrue := ce.RawTruth
 								if succTrue != nilWhenTrue {
 									return "fail"
 								}
@@ -319,20 +319,20 @@ func errValClass(r *ssa.Return, v ssa.Value, depth int) string {
 		fn := r.Parent()
 		for _, ce := range ir.DominatingConds(fn, r.Block()) {
 			// err == io.EOF / errors.Is(err, X) true => err is non-nil
-			if ev, ok := isEOFTest(ce.If.Cond); ok && (sameErrValue(ev, v) || ev == v) {
-				_, neg := ir.Peel(ce.If.Cond)
-				core, _ := ir.Peel(ce.If.Cond)
+			if ev, ok := isEOFTest(ce.RawCond); ok && (sameErrValue(ev, v) || ev == v) {
+				_, neg := ir.Peel(ce.RawCond)
+				core, _ := ir.Peel(ce.RawCond)
 				isEq := true
 				if bo, ok := core.(*ssa.BinOp); ok && bo.Op == token.NEQ {
 					isEq = false
 				}
-				succTrue := fn.Blocks[ce.Edge.From].Succs[0].Index == ce.Edge.To
+				succTrue := ce.RawTruth
 				if (isEq != neg) == succTrue {
 					return "fail"
 				}
 			}
-			if e, nilWhenTrue, ok := ir.NilCheck(ce.If.Cond); ok && sameErrValue(e, v) {
-				succTrue := fn.Blocks[ce.Edge.From].Succs[0].Index == ce.Edge.To
+			if e, nilWhenTrue, ok := ir.NilCheck(ce.RawCond); ok && sameErrValue(e, v) {
+				succTrue := ce.RawTruth
 				if succTrue != nilWhenTrue {
 					return "fail"
 				}
